@@ -1,6 +1,7 @@
 (* Entry points of the correspondence check: one function per harness command, from the parsed
    command to the answer string.  Evaluated by the extracted `modelrun` and by vm_compute. *)
-From H264 Require Import Base.Prelude Base.Bits Model.Show Model.BitReader Model.RefNal Model.Rbsp Model.Nal Model.AnnexB Model.Accum.
+From H264 Require Import Base.Prelude Base.Bits Model.Show Model.BitReader Model.RefNal Model.Rbsp Model.Nal Model.AnnexB Model.Accum
+     Model.Parser Model.Sps Model.SpsDerived Model.ShowSps Model.Context Model.Pps Model.ShowPps Model.Slice Model.ShowSlice.
 Local Open Scope string_scope.
 
 Inductive source := SrcRaw (b : list byte) | SrcNal (c : bool) (chunks : list (list byte)).
@@ -221,3 +222,64 @@ Definition show_invocation (i : invocation) : string :=
 
 Definition cmd_accum (frs : list (list (list byte) * bool)) (pol : list interest) : string :=
   join " " (map show_invocation (run_fragments acc_init pol frs)).
+
+(* ---- sps ---- *)
+Definition parse_sps (s : source) : out spserr sps := sps_from_bits (bitsrc_of_source s).
+
+Definition cmd_sps (s : source) : string :=
+  match parse_sps s with
+  | OK v => join " " (("ok:" ++ show_sps v) :: show_derived v)
+  | ERR e => "E:" ++ show_spserr e
+  | PANIC _ => "PANIC"
+  | FUEL => "FUEL"
+  end.
+
+(* ---- contexts: "S<nal>" / "P<nal>" items parsed in order, successes stored ---- *)
+Inductive ctx_item := CtxSps (nal : list byte) | CtxPps (nal : list byte).
+
+Definition nal_bitsrc (nal : list byte) : src := bitsrc_of_source (SrcNal true [nal]).
+
+Definition ctx_step (c : context) (it : ctx_item) : context :=
+  match it with
+  | CtxSps [] | CtxPps [] => c
+  | CtxSps nal => match sps_from_bits (nal_bitsrc nal) with OK s => put_seq_param_set c s | _ => c end
+  | CtxPps nal => match pps_from_bits c (nal_bitsrc nal) with OK p => put_pic_param_set c p | _ => c end
+  end.
+Definition build_ctx (items : list ctx_item) : context := fold_left ctx_step items ctx_empty.
+
+Definition cmd_pps (items : list ctx_item) (s : source) : string :=
+  match pps_from_bits (build_ctx items) (bitsrc_of_source s) with
+  | OK v => "ok:" ++ show_pps v
+  | ERR e => "E:" ++ show_ppserr e
+  | PANIC _ => "PANIC"
+  | FUEL => "FUEL"
+  end.
+
+(* ---- slice: header, ids of the activated sets, and the next (up to) 16 bits one by one ---- *)
+Fixpoint next_bits (n : nat) (s : src) : string :=
+  match n with
+  | O => ""
+  | S n' => match read_bool "n" s with
+            | OK (b, s') => show_bit b ++ next_bits n' s'
+            | ERR e => "!" ++ show_biterr_dbg e
+            | _ => "!PANIC"
+            end
+  end.
+
+Definition cmd_slice (items : list ctx_item) (s : source) : string :=
+  let ctx := build_ctx items in
+  match rdr_remaining (rdr_of_source s) with
+  | [] => "PANIC"
+  | b :: _ =>
+    match nal_header_new b with
+    | None => "E:hdr"
+    | Some hdr =>
+      match slice_header_read ctx hdr (bitsrc_of_source (match s with SrcRaw x => SrcNal true [x] | _ => s end)) with
+      | OK ((h, sid, pid), s') =>
+          "ok:" ++ show_slice_header h ++ " sps=" ++ show_N sid ++ ";pps=" ++ show_N pid ++ ";same=11 next=" ++ next_bits 16 s'
+      | ERR e => "E:" ++ show_sliceerr e
+      | PANIC _ => "PANIC"
+      | FUEL => "FUEL"
+      end
+    end
+  end.
